@@ -80,7 +80,9 @@ where
     /// # Safety
     /// Safe for all cluster topology decisions as it's based on immutable configuration.
     async fn is_single_node_cluster(&self) -> bool {
-        self.initial_cluster_size().await == 1
+        // Decide on the CURRENT membership: a node that booted alone and was expanded since
+        // (AddNode + promotion) has other voters and must win a real majority.
+        self.initial_cluster_size().await == 1 && self.voters().await.is_empty()
     }
 
     /// All pending active nodes in Active state
